@@ -335,6 +335,16 @@ func VerifC14_KMalformed() {
 		"(s:make-validator 5 s:int)",
 		"(s:make-validator \"t\" s:array (s:of (lambda (x) ())))",
 		"(s:make-validator \"t\" s:string (s:regexp \"(\"))",
+		"(s:make-validator \"t\" s:sorted-map (s:may-have-key \"k\" \"no-such-type\"))",
+		"(s:make-validator \"t\" s:sorted-map (s:may-have-key \"k\" 5))",
+		"(s:make-validator \"t\" s:sorted-map (s:may-have-key \"k\" (lambda (x) ())))",
+		"(s:make-validator \"t\" s:sorted-map (s:may-have-key \"k\" s:int (lambda (x) ())))",
+		"(s:make-validator \"t\" s:sorted-map (s:has-key \"k\" \"no-such-type\"))",
+		"(s:make-validator \"t\" s:sorted-map (s:has-key \"k\" s:int 5))",
+		"(s:make-validator \"t\" s:array (s:of \"no-such-type\"))",
+		"(s:make-validator \"t\" s:sorted-map (s:no-other-keys (lambda (x) ())))",
+		"(s:make-validator \"t\" s:sorted-map (s:when \"k\" (s:is-true) \"j\" (lambda (x) ())))",
+		"(s:make-validator \"t\" s:int (s:not 5))",
 	}
 	bi := vndChoice("schema", len(bad))
 	x := vndInt("x")
